@@ -684,7 +684,7 @@ class FnCtx:
             else:
                 fname = '%s__%s' % (self.lw.ext_record_cname(bt), sanitize(OPNAMES.get(mname, mname)))
                 if self.lw.cfg.get('ext_overload_by_arity', {}).get(fname):
-                    fname += '_%d' % len(args)
+                    fname += '_%d' % len([a for a in args if a.get('kind') != 'CXXDefaultArgExpr'])
                 if fname in self.lw.cfg.get('ext_overload_by_type', []):
                     fname += '__' + self.lw.sig_suffix([qt(a) for a in args])
         else:
